@@ -238,6 +238,33 @@ class Outcome:
                 self._pin_cache = {k: set(v) for k, v in self._pin_cache.items()}
         return self._pin_cache
 
+    def classify(self, rec, clause, detail, slim, sdetail=None):
+        '''Like violation() for checks whose matchers need the full case record `rec`
+        (with "id") while only the slim record is stored: matcher loop + pinned corpus.'''
+        store = {"case": slim, "clause": clause, "detail": sdetail if sdetail is not None else detail}
+        for f in self.findings:
+            m = self.matchers.get(f["match"])
+            try:
+                hit = bool(m and m(rec, clause, detail, f))
+            except Exception:   # a matcher that cannot decide does not match
+                hit = False
+            if not hit:
+                continue
+            key = chash([rec.get("id"), clause])
+            self.pin_seen.setdefault(f["id"], set()).add(key)
+            pins = self._pins()
+            if pins is not None and not os.environ.get("PV_PIN") and \
+                    key not in pins.get(f["id"], ()):
+                store["reason"] = ("new-case-in-pinned-corpus: matches known finding "
+                                   + f["id"] + " but is not one of its pinned cases")
+                self.violations.append(store)
+                return None
+            self.known_hit[f["id"]] = self.known_hit.get(f["id"], 0) + 1
+            self.known_examples.setdefault(f["id"], store)
+            return f["id"]
+        self.violations.append(store)
+        return None
+
     def violation(self, case, clause, detail=None):
         '''Report a failing case; matched against known findings.'''
         rec = {"case": case, "clause": clause, "detail": detail}
